@@ -394,6 +394,20 @@ func c13MapStr(m [][2]int) string {
 }
 
 func genC13(g *Gen) {
+	// long inputs (lengths incl. thresholds a change introduced into the source)
+	for li, n := range longLens(g.Thorough()) {
+		if !g.Mine() {
+			continue
+		}
+		s := longSlice(n, li)
+		ops := c13SliceOps(s, []int{-5, 0, 17, 99})
+		for _, i := range []int{n / 2, -n / 2, n - 1, -n, n, -n - 1} {
+			ops = append(ops, "nth "+ints(s)+" "+itoa(i))
+		}
+		g.Emit("c13", nil, ops)
+		g.Emit("c13", nil, []string{"range " + ints([]int{0, 1, n}), "range " + ints([]int{n, -1, 0}), "rangeright " + ints([]int{0, 1, n}),
+			"range " + ints([]int{-n, 7, n}), "range " + ints([]int{n})})
+	}
 	// (1) every slice up to length 6 (quick) / 7 (thorough) over {-3,-1,2,3}: ties under every key
 	// function, negative-only slices (zero value would be a wrong extremum), duplicates; plus every
 	// slice up to length 5 / 7 over {0,1,2}.
